@@ -278,8 +278,11 @@ def run_victim_file(sh, s, d, case, only=None):
         fs.tpc_abort(tmeta)
         wit = {'victim': kindv, 'site': site, 'exc': repr(exc)[:120], 'steps_done': done, 'cold_readers': cold}
         c2 = dict(case, site=site)
-        post = snap()
-        sh.count('snapshots_compared')
+        # variant: no read at all between the abort and the first read of the follow-up record (any intermediate read
+        # through the pool would refill a stale reader buffer and hide a missing pool flush)
+        no_reads = site.get('no_reads')
+        post = pre if no_reads else snap()
+        sh.count('snapshots_compared' if not no_reads else 'no_read_variants')
         if post != pre:
             what = [k for k in pre if pre[k] != post[k]]
             detail = dict(wit, differs=what)
@@ -358,6 +361,8 @@ def run_victim_file(sh, s, d, case, only=None):
         sh.violation('c05:file:abort-after-vote-changed-state(dry-run)', {'victim': kindv}, case)
         return kindv
     sites = [{'kind': 'abort', 'after': a} for a in range(1, nsteps + 1)]
+    sites += [{'kind': 'abort', 'after': nsteps, 'no_reads': True}]
+    sites += [{'kind': 'raw', 'k': k, 'how': 'short', 'no_reads': True} for k in range(max(1, nraw - 3), nraw + 1)]
     sites += [{'kind': 'raw', 'k': k, 'how': how} for k in range(1, nraw + 1) for how in ('raise', 'short')]
     nstores = nsteps - 2
     sites += [{'kind': 'stale', 'stale_at': i} for i in range(nstores) if kindv in ('new', 'update', 'multi', 'big', 'delete', 'blob')]
